@@ -584,7 +584,7 @@ def run_c19(tier, seed, keep=False):
         isstart = lambda x: x.startswith('{"op":"reset"')
         # verdict: vertices, successors/predecessors with weights, mirror, applicability - what the property talks about;
         # drift: the row structure of the internal maps, the invariants of the specification state
-        inv = ["Conforms", "Applicable", "ApiMirror"]
+        inv = ["Conforms", "Applicable", "ApiMirror", "NoPanic"]
         dinv = ["RowsConform", "Mirror", "EdgesAmongPresent", "DomAgree", "ReverseTwice"]
         g4 = dict(gconst, Keys='{"a","b","c","d"}', MaxHandles="4")
         rc = 0
@@ -601,7 +601,7 @@ def run_c19(tier, seed, keep=False):
                           "distinct_nontrivial = number of TLC-generated histories replayed" % len(hists))
         ev.sample({"history": hists[0][:8]})
         ev.doc["assumptions"] = ["the verif-tagged accessor VerifDump returns the graph's internal maps unmodified",
-                                 "AddEdge is only issued when both endpoints are present (documented precondition)"]
+                                 "AddEdge is issued for absent endpoints too (documented to do nothing); a recovered panic is recorded with the dump of what it left behind"]
         ev.write()
     return rc
 
@@ -743,6 +743,17 @@ def built_functions_stage(w, tier, seed, ev):
     q = tier == "quick"
     n = 2500 if q else 25000
     w.run_drive(["gen", "-profile", "built", "-n", str(n), "-seed", str(seed), "-out", "scenarios.json"])
+    # the spec-enumerated families of result-list shapes and of the matching table, every function assembled with BuildFunc
+    vlib.write_json(w.path("scn_model.json"), [])
+    consts = {"ScnFile": '"scn_model.json"', "Bugs": "{}", "Scenarios": "<- AllScenarios", "Family": '"C15"', "Size": "1" if q else "2"}
+    mres, model, famscn = model_stage(w, "C15", "MC_Family.tla", "MC_C15.cfg", ["M_C01", "M_C06"], consts, ev)
+    if mres["violated"]:
+        raise Infra("the Resolver model violates %s on the C15 family:\n%s" % (mres["violated"], mres["out"][-2500:]))
+    for x in famscn:
+        for fsp in [x["target"]] + x["convs"]:
+            fsp["form"], fsp["hasErr"] = "built", True
+    ev.cov["family"] = {"name": "C15", "scenarios": len(famscn)}
+    vlib.write_json(w.path("scenarios.json"), json.load(open(w.path("scenarios.json"))) + famscn)
     r = w.run_drive(["run", "-in", "scenarios.json", "-reps", "3", "-seed", str(seed), "-out", "trace.ndjson"])
     log(r.stderr.strip())
     summarize_trace(w.path("trace.ndjson"), ev, ev.cov["rule"])
